@@ -68,4 +68,26 @@ PROPS = {
             {"name": "TestC06Faults", "quick": 600, "thorough": 40000, "gomaxprocs": 1},
         ],
     },
+    "C12": {
+        "level": "exploration",
+        "technique": "schedule exploration: rapid-generated interleaving tapes drive a controlled scheduler (synctest + yield hooks in the store) over readers, writers and cancellations; blocked/woken readers judged at quiescence",
+        "level_text": "Generated schedules at yield-point granularity: 1-3 GetByHeight readers (shared heights, below-tail heights, contexts cancelled at drawn steps) against 1-3 writers appending contiguous, gapped and out-of-order chunks; the tape decides which parked goroutine runs next (yield points: between lookup and subscription, inside heightSub.Wait, after pending.Append, after Notify, after advanceHead, after commit). Oracle at final quiescence: no reader of an appended height is blocked, each got the right header, never-appended heights keep waiting until cancelled, a cancelled context always releases.",
+        "level_note": "Interleavings are explored only at instrumented yield points with GOMAXPROCS=1; liveness is judged as state at quiescence in virtual time. On an initially empty store ErrNotFound is accepted for a height below the first batch (it was 'at or below Height and not stored').",
+        "rule": "Non-trivial = the trace shows the window being hit: a reader parked between its failed lookup and its subscription while the flush loop's Notify ran. Distinct = distinct scenario JSON (incl. tape).",
+        "assumptions": ["yield-point granularity", "removing a yield call site only reduces explored interleavings"],
+        "tests": [{"name": "TestC12", "quick": 3000, "thorough": 150000, "gomaxprocs": 1, "env": {"GODEBUG": "asyncpreemptoff=1"}}],
+    },
+    "C17": {
+        "level": "exploration",
+        "race": True,
+        "technique": "schedule exploration with a controlled scheduler (engine A) plus randomised real-thread runs under the race detector (engine B); per-reader and global monotonicity, read-your-writes after Sync, and differential comparison with the sequential store model",
+        "level_text": "Engine A: 2-4 writers (disjoint/overlapping/interleaved chunks), 1-2 readers (Head, Height, GetByHeight/Get of that head), optional Sync+read-back per writer and one tail-side deleter, interleaved by a generated tape at the store's yield points; Head/Height monotone per reader and in the global serial order, Head() retrievable, Append+Sync => readable, final store == sequential model. Engine B: the same task mix on real goroutines (GOMAXPROCS=16, -race build, Gosched jitter), 5 repetitions per scenario; a race report with a stack in /repo is a violation.",
+        "level_note": "Engine B is probabilistic: a clean run is weaker evidence than engine A's. Head-side deletion and wipe are excluded (they lower Head by design).",
+        "rule": "Engine A: non-trivial = a reader step or the delete was released while a flush-loop yield point was parked (observation between two flush steps / delete overlapping an append). Engine B: every run counts (real threads). Distinct = distinct scenario JSON.",
+        "assumptions": ["yield-point granularity for engine A", "engine B samples real schedules"],
+        "tests": [
+            {"name": "TestC17", "quick": 2000, "thorough": 100000, "gomaxprocs": 1, "env": {"GODEBUG": "asyncpreemptoff=1"}},
+            {"name": "TestC17Real", "quick": 120, "thorough": 6000, "race": True, "gomaxprocs": 16, "shards_quick": 1, "shards_thorough": 4, "nondeterministic": True},
+        ],
+    },
 }
